@@ -290,7 +290,7 @@ SPECS = {
         "engine": "rapidcheck bytes -> (case, schedule); sched/vsched.cpp owns the interleaving; each case in a forked child",
         "stages": (lambda tier: sched_stages("C09", 500, 700, floors={"blocks_ge2": 100, "blocks_ge4": 30, "threads_ge3": 100}, nontrivial_floor=100, thorough_mult=15)(tier)
                    + [{"name": "enum", "binary": "sched_rc", "plan": [(s, 1, 10) for s in range(18)], "param": "enum:3:150000" if tier == "thorough" else "enum:2:12000",
-                       "label_floors": {"enum_complete": 4}, "nontrivial_floor": 10}]
+                       "label_floors": {"enum_complete": 4}, "nontrivial_floor": 10, "stall_s": 3600}]
                    + [{"name": "native", "binary": "native_rc", "plan": [(0, 30 * (10 if tier == "thorough" else 1), 60)] * 16,
                        "label_floors": {"blocks_ge1000": 20}, "nontrivial_floor": 100, "nondeterministic": True}]),
         "rule": "case = (S of 3..600 strings, overhead, cut, threads, schedule bytes); non-trivial = >=2 blocks and >=1 pre-emption of a "
@@ -306,7 +306,7 @@ SPECS = {
         "engine": "rapidcheck bytes -> (pool scenario, schedule); sched/vsched.cpp owns the interleaving; each case in a forked child",
         "stages": (lambda tier: sched_stages("C10", 6000, 260, floors={"threads_ge3": 2000, "preemptions_ge3": 2000, "notify_without_waiter": 500}, nontrivial_floor=2000, thorough_mult=10)(tier)
                    + [{"name": "enum", "binary": "sched_rc", "plan": [(s, 1, 10) for s in range(36)], "param": "enum:3:400000" if tier == "thorough" else "enum:2:40000",
-                       "label_floors": {"enum_complete": 12}, "nontrivial_floor": 20}]),
+                       "label_floors": {"enum_complete": 12}, "nontrivial_floor": 20, "stall_s": 3600}]),
         "rule": "case = (workers, tasks, protocol in {stop-after-add, stop-after-completion-cv, last-task-stops}, schedule bytes, strategy "
                 "random|PCT); non-trivial = >=1 task and >=1 pre-emption of a runnable thread; distinct = hash of the case bytes; enumeration stage: "
                 "case = configuration, counter enum_schedules = schedules executed (each under the same oracle)",
